@@ -284,11 +284,38 @@ fn exec_dist(m: &Matrix, trials: u64, seed: u64, cells_total: u64, obs: &mut Obs
     let mut rng = FastRng::new(seed);
     let n = m.rows.len();
     let mut wins = vec![0u64; n];
-    for _ in 0..trials {
-        match select_index(m, &mut rng) {
-            Ok(Some(w)) => wins[w] += 1,
-            _ => return Vec::new(),
+    // ONE selector value and one population for all trials of an experiment (a long session on one value:
+    // whatever a selector carries from call to call shows up as a wrong law)
+    let ok = match m.polarity {
+        Polarity::Score => {
+            let pop: Vec<Ind<Score<i64>>> = make_pop(m);
+            let l = Lexicase::new(m.c);
+            catch(|| {
+                for _ in 0..trials {
+                    match l.select(&pop, &mut rng).ok().and_then(|r| pop.iter().position(|x| std::ptr::eq(x, r))) {
+                        Some(w) => wins[w] += 1,
+                        None => return false,
+                    }
+                }
+                true
+            })
         }
+        Polarity::Error => {
+            let pop: Vec<Ind<ErrR<i64>>> = make_pop(m);
+            let l = Lexicase::new(m.c);
+            catch(|| {
+                for _ in 0..trials {
+                    match l.select(&pop, &mut rng).ok().and_then(|r| pop.iter().position(|x| std::ptr::eq(x, r))) {
+                        Some(w) => wins[w] += 1,
+                        None => return false,
+                    }
+                }
+                true
+            })
+        }
+    };
+    if !matches!(ok, Ok(true)) {
+        return Vec::new(); // the exact clauses report panics / errors
     }
     obs.count("steps", trials);
     if order_sensitive(m) {
